@@ -24,16 +24,28 @@ Definition as_prim (i : finfo) (a : tfval) : option (bool * bool * prim) :=
   end.
 
 (* allocateEmbedded: if obj.<Embedded> == nil { obj.<Embedded> = &Embedded{} } *)
+(* allocateEmbedded: if obj.<Parent> == nil { obj.<Parent> = &Parent{} }, then the same for every nullable
+   embedded message below it on the way to the field *)
+Fixpoint alloc_chain (obj : goval) (ps : list (string * goval)) : res goval :=
+  match ps with
+  | [] => Ok obj
+  | (pn, pzero) :: r =>
+      do pv <- gfield obj pn;
+      match pv with
+      | GPtr None => do z <- alloc_chain pzero r; gset obj pn (GPtr (Some z))
+      | GPtr (Some inner) =>
+          match r with
+          | [] => Ok obj
+          | _ => do inner' <- alloc_chain inner r; gset obj pn (GPtr (Some inner'))
+          end
+      | _ => Panic
+      end
+  end.
+
 Definition alloc_parent (i : finfo) (obj : goval) : res goval :=
   match fi_parent i with
   | None => Ok obj
-  | Some (pn, pzero) =>
-      do pv <- gfield obj pn;
-      match pv with
-      | GPtr None => gset obj pn (GPtr (Some pzero))
-      | GPtr (Some _) => Ok obj
-      | _ => Panic
-      end
+  | Some pz => alloc_chain obj (pz :: fi_inner i)
   end.
 
 Section CopyFrom.
@@ -99,8 +111,11 @@ Section CopyFrom.
         match fi_kind i with
         | CustomKind =>
             let ds1 := match a0 with None => diag_append ds (ReadMissing, path) | Some _ => ds end in
-            do cur <- gget_via obj via name;
-            do obj' <- gset_via obj via name (hook_from (fi_suffix i) a0 cur);
+            (* the user function writes through a pointer to the field: a nullable embedded message the field
+               is promoted from is allocated first *)
+            do obj1 <- alloc_parent i obj;
+            do cur <- gget_via obj1 via name;
+            do obj' <- gset_via obj1 via name (hook_from (fi_suffix i) a0 cur);
             Ok (obj', ds1)
         | k =>
             match a0 with
